@@ -330,7 +330,7 @@ def run(ctx):
         check_history(ctx, ops, h, rnd.sample(all_probes, 5))
     undo_import()
     # the model zoo through shared serializer/parser instances vs fresh ones
-    zoo_histories(ctx, rnd, ctx.pick(150, 3000))
+    zoo_histories(ctx, rnd, ctx.pick(150, 10**7))   # thorough: until the time budget is used
 
 
 def zoo_histories(ctx, rnd, n):
